@@ -126,6 +126,13 @@ def prop(case, rec):
     for base_ in pwgen.WEBISH[:5] + pwgen.EMAILISH[:4]:
         for w_ in ('zaq1', '1qaz', 'qwer4', '2019', '12'):
             cands += [base_ + w_, w_ + base_]
+    # spellings that other tools of the repository decode ($HEX[..] is a trainer input convention): to the scorer they are literal strings
+    for s in list(dict.fromkeys(pws))[:6] + sample[:4]:
+        try:
+            hx = s.encode(case.get('encoding') or 'utf-8').hex()
+        except (UnicodeError, LookupError):
+            continue
+        cands += ['$HEX[' + hx + ']', '$HEX[' + hx.upper() + ']']
     cands += case.get('extra', []) + pwgen.EMAILISH + pwgen.WEBISH + ['', ' ', 'zzzzzz', '9999', '!!!!', 'Zq#1', 'abc def'] + odd
     cands = [c for c in dict.fromkeys(cands) if isinstance(c, str)]
     first = {}
